@@ -24,10 +24,28 @@ def renumber(trace):
     return out, len(ids)
 
 
+def apalache_inductive(ctx, module):
+    import shutil, subprocess
+    d = ctx.sub("apalache")
+    shutil.copy(os.path.join(SPECS, module + ".tla"), d)
+    out = {}
+    for name, args in (("base", ["--init=Init", "--length=0"]), ("step", ["--init=IndInit", "--length=1"])):
+        r = subprocess.run(["timeout", "900", "apalache-mc", "check", "--cinit=CInit", "--inv=IndInv"] + args + [module + ".tla"],
+                           cwd=d, stdout=subprocess.PIPE, stderr=subprocess.STDOUT, text=True)
+        ok = r.returncode == 0 and "EXITCODE: OK" in r.stdout
+        out[name] = ok
+        if not ok:
+            raise MachineryError("Apalache %s/%s did not pass (rc=%s):\n%s" % (module, name, r.returncode, r.stdout[-2000:]))
+    return out
+
+
 def run(ctx):
     q = ctx.quick
     # 1. the specification itself: exhaustive for small constants
     mc = tlc_mc(ctx, "Token", "Token_mc.cfg" if q else "Token_mc_thorough.cfg", timeout=1800, coverage=not q)
+    # 1b. unbounded in the number of steps: Apalache checks that TokenCore.tla's IndInv is inductive
+    #     (Init => IndInv at length 0; IndInv /\ Next => IndInv' at length 1) for 3 callers, 3 parameter keys, 6 tokens
+    ind = apalache_inductive(ctx, "TokenCore")
     # 2. scenarios from the specification (TLC simulation) + seeded random ones from the harness
     params = os.path.join(ctx.scratch, "params.ndjson")
     scen = tc.simulate(ctx, "Token_gen", "Token_gen.cfg", num=40 if q else 600, depth=80, env={"VERIF_PARAMS": params})
@@ -75,7 +93,9 @@ def run(ctx):
                     "sets per scenario) + seeded random scenarios + free-running concurrent callers; non-trivial = a failed "
                     "attempt is followed by an attempt with the same parameters; distinct by hash of the renumbered trace",
                samples=[ren[0][0][:12], ren[-1][0][:12]], events=sum(len(t) for t in traces),
-               coverage_zero_actions=mc.coverage_zero, param_rows=len(ptab), exhaustive=False)
+               coverage_zero_actions=mc.coverage_zero, param_rows=len(ptab), exhaustive=False,
+               inductive_invariant=dict(tool="apalache-mc 0.58", module="TokenCore.tla", invariant="IndInv", base_case=ind["base"], inductive_step=ind["step"],
+                                        parameters="Calls=1..3, Keys=1..3, Tok=1..6, Cap=2"))
     return finish(ctx, "model_checking", cov, [
         "the cloud endpoint is a fake http.RoundTripper inside the real SDK clients; only the ClientToken it receives is judged",
         "token choice is an unobservable step between invocation and request arrival (silent Pick in the trace spec)",
